@@ -27,31 +27,32 @@ type watched struct {
 	c     interface{} // the case (Case or Conn)
 }
 
-type watchedCall struct {
-	o     *op
-	index int
-}
-
 var (
 	watchOnce  sync.Once
 	watchCase  atomic.Pointer[watched]
-	watchStart [2]atomic.Int64 // UnixNano of the call in progress in a direction, 0 = none
-	watchCall  [2]atomic.Pointer[watchedCall]
+	watchStart [2]atomic.Int64 // coarse clock reading (UnixNano) when the call in progress began, 0 = none
+	watchOp    [2]atomic.Pointer[op]
+	watchIdx   [2]atomic.Int64
+	// coarse is a clock the watchdog advances every 50 ms: millions of calls read it, none asks the OS
+	coarse atomic.Int64
 )
 
 func watchBegin(check string, c interface{}) {
-	watchOnce.Do(func() { go watchdog() })
+	watchOnce.Do(func() {
+		coarse.Store(time.Now().UnixNano())
+		go watchdog()
+	})
 	watchCase.Store(&watched{check: check, c: c})
 }
 
-// guarded runs one call into the adapter under the watchdog's eyes.
-func guarded(dir int, o *op, index int, f func() error) error {
-	watchCall[dir].Store(&watchedCall{o: o, index: index})
-	watchStart[dir].Store(time.Now().UnixNano())
-	err := f()
-	watchStart[dir].Store(0)
-	return err
+// enter announces a call into the adapter, leave its return.
+func enter(dir int, o *op, index int) {
+	watchOp[dir].Store(o)
+	watchIdx[dir].Store(int64(index))
+	watchStart[dir].Store(coarse.Load())
 }
+
+func leave(dir int) { watchStart[dir].Store(0) }
 
 var adapterStackRE = regexp.MustCompile(`h2/grpc\.\(\*(adapter|emitter)\)`)
 
@@ -60,6 +61,7 @@ func watchdog() {
 	for {
 		time.Sleep(50 * time.Millisecond)
 		now := time.Now().UnixNano()
+		coarse.Store(now)
 		for dir := 0; dir < 2; dir++ {
 			st := watchStart[dir].Load()
 			if suspect[dir] != 0 && st != suspect[dir] {
@@ -82,12 +84,12 @@ func watchdog() {
 }
 
 func callDoesNotReturn(dir int, age time.Duration) {
-	w, call := watchCase.Load(), watchCall[dir].Load()
+	w, o, index := watchCase.Load(), watchOp[dir].Load(), int(watchIdx[dir].Load())
 	where := []string{"client-to-server", "server-to-client"}[dir]
 	shape, what := "header-call", "Header"
-	switch call.o.kind {
+	switch o.kind {
 	case 'D':
-		shape, what = "data-call", fmt.Sprintf("Data(%d bytes, streamEnded=%v)", len(call.o.data), call.o.end)
+		shape, what = "data-call", fmt.Sprintf("Data(%d bytes, streamEnded=%v)", len(o.data), o.end)
 	case 'R':
 		shape, what = "rst-stream-call", "RSTStream"
 	}
@@ -96,7 +98,7 @@ func callDoesNotReturn(dir int, age time.Duration) {
 	if len(stack) > 1800 {
 		stack = stack[:1800] + " ..."
 	}
-	msg := fmt.Sprintf("%s: call %d of the direction, %s, into the adapter has not returned after %v (bound %v, looked at again for 3 times the bound): the goroutine is still inside\n%s", where, call.index+1, what, age.Round(time.Millisecond), kit.T(), stack)
+	msg := fmt.Sprintf("%s: call %d of the direction, %s, into the adapter has not returned after %v (bound %v, looked at again for 3 times the bound): the goroutine is still inside\n%s", where, index+1, what, age.Round(time.Millisecond), kit.T(), stack)
 	raw, _ := json.Marshal(w.c)
 	doc, _ := json.MarshalIndent(map[string]interface{}{"property": "C11", "check": w.check, "sig": sig, "msg": msg, "case": json.RawMessage(raw)}, "", " ")
 	os.WriteFile(filepath.Join(kit.OutDir(), fmt.Sprintf("current-%d.json", kit.Shard())), doc, 0o644)
